@@ -677,6 +677,21 @@ func c04Step(s *c04sess) bool {
 		if cs.R.Chance(35) {
 			op = "replace"
 		}
+		if op == "replace" && cs.R.Chance(15) {
+			// a replacement of another thrift type is refused and leaves the value as it was
+			wrong := tref.Str("wrong-type")
+			if old.T == tref.STRING {
+				wrong = tref.Int32(7)
+			}
+			logf("replace-wrong-type %s := %s (element is %s)", mpathStr(p), wrong.String(), tref.TypeName(old.T))
+			_, err := apply("replace", p, wrong)
+			if err == nil {
+				cs.Viol("edit:replace-wrong-type:accepted", "element-type", tref.TypeName(old.T), "log", s.log)
+				return false
+			}
+			cs.Cover("op_replace_wrong_type_rejected")
+			return s.check("replace-wrong-type", []*tref.Val{s.cur})
+		}
 		logf("%s-present %s := %s", op, mpathStr(p), nv.String())
 		exist, err := apply(op, p, nv)
 		if err != nil || !exist {
